@@ -606,6 +606,13 @@ def trans_core(pid, plan, tier, replay_file=None, models=True):
         ccfg = {'Addrs': ['a'], 'MaxConns': 1, 'MaxIdle': 1, 'KeepAlive': 1, 'IdleTO': 2, 'UnitMs': 50, 'CloseErr': True, 'Forms': ['call']}
         schedules.append({'name': 'closeerr:kill', 'cfg': ccfg, 'steps': G(1) + R(1) + [{'a': 'Kill', 'addr': 'a'}] + G(1) + R(1) + [{'a': 'Restart', 'addr': 'a'}] + G(1) + R(1) + G(1) + R(1) + G(1) + R(1)})
         schedules.append({'name': 'closeerr:drop', 'cfg': dict(ccfg, Forms=['call', 'stream', 'call']), 'steps': G(1) + R(1) + [{'a': 'Drop', 'k': 1}] + G(1) + R(1) + G(1) + R(1) + G(1) + R(1)})
+        # a connection that housekeeping parked in the idle queue is taken back by a call and ends under that call (the server
+        # stays up): the call fails once - no second hand-out, no second dial, no second execution inside the same API call
+        rcfg = {'Addrs': ['a'], 'MaxConns': 1, 'MaxIdle': 1, 'KeepAlive': 1, 'IdleTO': 4, 'UnitMs': 50, 'Forms': ['call']}
+        park = [{'a': 'Advance'}, {'a': 'Advance'}, {'a': 'Tick'}]
+        schedules.append({'name': 'reuse:drop', 'cfg': rcfg, 'steps': G(1) + R(1) + park + G(1) + [{'a': 'Drop', 'k': 1}] + R(1) + G(1) + R(1) + G(1) + R(1)})
+        schedules.append({'name': 'reuse:dropidle', 'cfg': dict(rcfg, Forms=['call', 'call', 'rt', 'go']), 'steps': G(1) + R(1) + park + [{'a': 'Drop', 'k': 1}] + G(1) + R(1) + G(1) + R(1) + G(1) + R(1)})
+        schedules.append({'name': 'reuse:kill', 'cfg': rcfg, 'steps': G(1) + R(1) + park + G(1) + [{'a': 'Kill', 'addr': 'a'}] + R(1) + [{'a': 'Restart', 'addr': 'a'}] + G(1) + R(1) + G(1) + R(1)})
         if plan.get('bursts'):
             # concurrent callers racing for the pool (no gates): limits and their normalisation
             for j, (mc, mi, raw) in enumerate([(2, 1, None), (1, 1, (0, 0)), (1, 1, (-1, 5)), (2, 2, (2, 5)), (3, 2, None), (1, 1, None), (3, 1, (3, -1)), (2, 1, (2, -3)),
